@@ -108,10 +108,10 @@ CHECKS['C06'] = dict(
     note=TB + 'slice/pointer models track lengths and one atom per byte position; contract A. Five defects found by clauses (2) and (3) are repaired by fix: commits: a wrapped 39-digit coefficient accepted; many leading fractional zeros rejected as overflow; "0." / "0e3" rejected; "1e+" accepted; "1e005" rejected.')
 
 CHECKS['C07'] = dict(
-    category='other', design_ref='DESIGN.md section 5 C07 (as built: section 12.10)',
-    technique=ABSINT + ' with the formatting machinery modelled structurally (decoded format_args! template + argument terms; pad_integral under the default formatter); the three rendering functions are interpreted one after the other on the same path so that their outputs are compared under one path condition',
-    text='CLAUSE decided (the three renderings are one canonical string): for all 19 scales x sign classes of the coefficient, Display::fmt under the default formatter (= to_string(), which is core\'s blanket impl), String::from(Decimal) and the text between "Dec!(" and ")" of Debug::fmt hand the same sequence of pieces to core::fmt: "-" iff x < 0, the decimal rendering of int, and iff p > 0 a "." and frac zero-padded to width p, with int >= 0, 0 <= frac < 10^p and int*10^p + frac = |x|. NOT decided: that parsing this string returns the same Decimal (depends on the value semantics of the parser, which C06 does not decide) and the serde-as-str clause.',
-    note=TB + 'core::fmt: integer Display (no leading zeros, "-" + |v|), zero padding to a width, pad_integral under the default formatter, the template encoding of fmt::Arguments of the nightly used for extraction.')
+    category='other', design_ref='DESIGN.md section 12.10',
+    technique=ABSINT + ' with the formatting machinery modelled structurally (decoded format_args! template + argument terms; pad_integral under the default formatter); the three rendering functions are interpreted one after the other on the same path so that their outputs are compared under one path condition; the round trip is a composition argument whose premises (canonical shape, shape in the grammar, the parser\'s value and grammar clauses, the folding of (c, -p)) are obligations of this check',
+    text='(a) decided: for all 19 scales x sign classes of the coefficient, Display::fmt under the default formatter (= to_string(), core\'s blanket impl), String::from(Decimal) and the text between "Dec!(" and ")" of Debug::fmt hand the same sequence of pieces to core::fmt: "-" iff x < 0, the decimal rendering of int, and iff p > 0 a "." and frac zero-padded to width p, with int >= 0, 0 <= frac < 10^p and int*10^p + frac = |x|. (b) round trip, by composition: that shape is a complete literal of the parser\'s grammar; for complete literals the parser returns the digits read as one number with the literal\'s sign and minus the number of fractional digits as exponent (C06 clauses 2 and 3, re-run here, under contract A of the scanners); from_str folds (c, -p) into Decimal(c, p) (C18 cells, re-run here); with positional notation (int*10^p + frac is the number the digit string denotes: trusted) parse(render(d)) has the coefficient and the fractional digit count of d. serde-as-str goes through String::from and TryFrom<String>, which forwards to from_str (serde\'s derive trusted).',
+    note=TB + 'core::fmt: integer Display (decimal digits, no leading zeros, "-" + |v|), zero padding to a width, pad_integral under the default formatter, the template encoding of fmt::Arguments of the nightly used for extraction; contract A of the parser\'s scanners; positional notation; serde derive.')
 
 CHECKS['C12'] = dict(
     category='proof', design_ref='DESIGN.md section 12.12 (as built; section 7 listed C12 as not applicable before the cell decomposition by bit length was tried)',
